@@ -1453,7 +1453,8 @@ class SQLGenerator:
         # model into the sub-query. Only filters that reference metrics (or several models) stay
         # on the outer query.
         pushdown_by_model, shared_filters = self._classify_filters_for_pushdown(all_filters, set(self.graph.models))
-        row_filters = [f for model_filters in pushdown_by_model.values() for f in model_filters]
+        # (by model name: the classification is keyed by a set of names, whose order is not stable)
+        row_filters = [f for model_name in sorted(pushdown_by_model) for f in pushdown_by_model[model_name]]
 
         # Generate a pre-aggregated CTE for each metric model
         preagg_ctes = []
